@@ -66,11 +66,16 @@ func AllElements(el *etree.Element) []*etree.Element {
 
 // SigOf returns the direct ds:Signature child of el, if any.
 func SigOf(el *etree.Element) *etree.Element {
-	s := ChildrenNS(el, NSDS, "Signature")
-	if len(s) == 0 {
-		return nil
+	for _, ch := range el.ChildElements() {
+		if ch.Tag != "Signature" {
+			continue
+		}
+		// a detached copy cannot resolve a prefix its former ancestors declared: accept the conventional prefix too
+		if ns := ch.NamespaceURI(); ns == NSDS || (ns == "" && ch.Space == "ds") {
+			return ch
+		}
 	}
-	return s[0]
+	return nil
 }
 
 // EvilAssertion is content the IdP never signed: an administrator subject,
